@@ -188,8 +188,9 @@ def run(ctx):
                     fs = dict(zip(s['rv']['kind']['fields'], s['rv']['ops']))
                     tag = ctx.eng.operand(b, blk['i'], si, fs['extension_degree'])
                     d1 = ctx.eng.operand(b, blk['i'], si, fs['d1'])
-                    rngs = generator_ranges(d1)
-                    ok = bool(rngs) and all(any(y is tag for y in walk(r[2])) and r[1].tag == 'const' and r[1][1] == 0 for r in rngs)
+                    rngs = generator_ranges(ctx.eng.expand(d1))
+                    tag_x = ctx.eng.expand(tag)
+                    ok = bool(rngs) and all(any(y is tag or y is tag_x for y in walk(r[2])) and r[1].tag == 'const' and r[1][1] == 0 for r in rngs)
                     fn = b.path.split('::')[-1]
                     rep.check(ok, 'R-C05-3', 'R-C05-3/%s' % fn, '%s builds d1 with exactly `tag` many components (0..tag) and stores that tag' % fn,
                               '%s: d1 ranges %s but the stored tag is %s' % (fn, [short(r, 60) for r in rngs], short(tag, 60)), ctx.where(b, blk['i']))
